@@ -12,6 +12,7 @@ package chacha20poly1305
 //@   ensures err == nil ==> len(key) == 32 && len(nonce) == 8 && len(out) == len(message)
 //@   ensures err == nil ==> aead_ok(seq(key), seq(nonce), seq(message), seq(mac), seq(add))
 //@   ensures err == nil ==> seq(out) == aead_open(seq(key), seq(nonce), seq(message), seq(mac), seq(add))
+//@   ensures len(key) == 32 && len(nonce) == 8 && aead_ok(seq(key), seq(nonce), seq(message), seq(mac), seq(add)) ==> err == nil
 
 //@ func EncryptAndSeal(key, nonce, message, add) (out, mac, err)
 //@   trusted
